@@ -8,6 +8,13 @@ from .. import content as cnt
 from .. import evidence, par, scen, shimlog
 from .c01 import Template
 
+
+def _unmatched(res):
+    """violations not covered by an open known finding (those must not stop the exploration early)"""
+    from .. import findings
+    return len([v for v in res["violations"] if findings.match("C09", v[0]) is None])
+
+
 RULE = ("(a) mutation campaign, one process per mutant, ASan+UBSan build: corpus = content files of several shapes (format 2 and "
         "3, all record kinds incl. deleted/changed/replaced blocks, links, dirs, hash migration, splits); mutants = every single "
         "bit, every truncation length, byte -> 00/FF/^80/+1, random multi-byte damage and field-aware damage (every varint -> 0, "
@@ -194,7 +201,7 @@ def run_mutants(case):
             for p, d in zip(cps, others):
                 with open(p, "wb") as f:
                     f.write(d)
-            if len(res["violations"]) >= 5:
+            if _unmatched(res) >= 5:
                 break
         res["counters"]["mutants"] = nm
         res["counters"]["content_bytes"] = len(orig) if shard == 0 else 0
@@ -345,9 +352,9 @@ def run_atomic(case):
                 rs = a.cmd("status")
                 if rs.rc != 0:
                     res["violations"].append(("no-content-loads-after-kill", "%s killed at %d/%d (%s): status rc=%s %s" % (cmdname, k, K, mode, rs.rc, rs.err[-200:].decode("latin-1")), replay))
-                if len(res["violations"]) >= 4:
+                if _unmatched(res) >= 4:
                     break
-            if len(res["violations"]) >= 4:
+            if _unmatched(res) >= 4:
                 break
         res["counters"]["kill_points"] = fired
         res["nontrivial"] = fired > 0
